@@ -18,7 +18,7 @@ from mc.checks import rules_common as R
 
 PROPERTY = "C19"
 LEVEL = "exploration"
-RULE = ("cases = every sequence of 1..K tokens (K=4 quick, 5 thorough) over 29 tokens (WHOLE, FOODS, netflix.com, C++, (X), AT&T, O'REILLY, "
+RULE = ("cases = every sequence of 1..4 tokens over 29 tokens (thorough adds every 5-token sequence over the first 18) (WHOLE, FOODS, netflix.com, C++, (X), AT&T, O'REILLY, "
         "SAY\"HI\", X\\Y, #12, 1234, 98101, WA, A*B, [Z], $5, Café, a|b, 16\", #B4, PIE#2, WWW.SOUTHWESTAIRLINES.COM, INTERNATIONAL, A.B.C.D.E.F) joined by single blanks (plus the double-blank variant for 2-token "
         "descriptions) x 6 prefixes (none, APLPAY, SQ *, TST*, PP*, GOOGLE *); plus end-to-end discover->append->discover runs on statements of "
         "6 descriptions each. non-trivial = description with >=2 tokens or any non-alphanumeric character; descriptions distinct by construction")
@@ -35,13 +35,19 @@ PREFIXES = ["", "APLPAY ", "SQ *", "TST*", "PP*", "GOOGLE *"]
 
 
 def bounds(tier):
-    return {"max_tokens": 4 if tier == "quick" else 5, "tokens": len(TOKENS), "prefixes": len(PREFIXES)}
+    return {"max_tokens": 4 if tier == "quick" else "4 over all tokens, 5 over the 18 core tokens", "tokens": len(TOKENS), "prefixes": len(PREFIXES)}
+
+
+CORE_TOKENS = list(range(18))      # the tokens the first build used; 5-token descriptions are enumerated over these
 
 
 def gen_cases(tier):
-    k = 4 if tier == "quick" else 5
-    for n in range(1, k + 1):
+    # every description of <= 4 tokens over the whole alphabet; thorough adds every 5-token description over the 18 core tokens
+    for n in range(1, 5):
         for seq in itertools.product(range(len(TOKENS)), repeat=n):
+            yield {"kind": "unit", "tokens": list(seq)}
+    if tier == "thorough":
+        for seq in itertools.product(CORE_TOKENS, repeat=5):
             yield {"kind": "unit", "tokens": list(seq)}
     # long descriptions: a metacharacter at EVERY offset 1..70, so any length-dependent treatment of the pattern is exercised
     for n in range(1, 71):
